@@ -66,7 +66,8 @@ def parseElemV2 (b64ok : Bool) (item : Json) : Option Elem :=
          && nonemptyHex (Json.lookup kvs "signature") then common else none
     | some (.str "sgx_attestation_key") =>
       if nonemptyHex (Json.lookup kvs "message") && nonemptyHex (Json.lookup kvs "key")
-         && nonemptyHex (Json.lookup kvs "auth_data") && nonemptyHex (Json.lookup kvs "signature") then common
+         && (Json.lookup kvs "auth_data" == some (.str "") || nonemptyHex (Json.lookup kvs "auth_data"))
+         && nonemptyHex (Json.lookup kvs "signature") then common
       else none
     | some (.str "x509_pem") => if b64ok then common else none
     | _ => none
